@@ -245,8 +245,11 @@ impl<'a> Parser<'a> {
     /// Parse index or slice expression inside brackets
     /// Handles: [expr], [start:end], [start:end:step], [:end], [start:], [::step]
     fn index_or_slice(&mut self) -> Result<IndexOrSlice, CompileError> {
-        // Check for immediate colon (slice starting with no start value)
-        if self.check(&TokenKind::Punctuation(PunctuationId::Colon)) {
+        // Check for immediate colon (slice starting with no start value). The lexer produces a single `::` token for two
+        // adjacent colons, so `x[::step]` starts with `ColonColon`.
+        if self.check(&TokenKind::Punctuation(PunctuationId::Colon))
+            || self.check(&TokenKind::Punctuation(PunctuationId::ColonColon))
+        {
             return self.parse_slice(None);
         }
 
@@ -261,8 +264,10 @@ impl<'a> Parser<'a> {
         // Parse first expression
         let first = self.expression()?;
 
-        // Check if this is a slice (has colon after first expression)
-        if self.check(&TokenKind::Punctuation(PunctuationId::Colon)) {
+        // Check if this is a slice (has colon after first expression; `x[a::step]` continues with `ColonColon`)
+        if self.check(&TokenKind::Punctuation(PunctuationId::Colon))
+            || self.check(&TokenKind::Punctuation(PunctuationId::ColonColon))
+        {
             return self.parse_slice(Some(first));
         }
 
@@ -273,6 +278,20 @@ impl<'a> Parser<'a> {
     /// Parse slice syntax after optional start expression
     /// start is already parsed, now parse [:end[:step]]
     fn parse_slice(&mut self, start: Option<Spanned<Expr>>) -> Result<IndexOrSlice, CompileError> {
+        // `::` is lexed as one token: both colons at once means "no end", optionally followed by the step.
+        if self.match_token(&TokenKind::Punctuation(PunctuationId::ColonColon)) {
+            let step = if !self.check(&TokenKind::Punctuation(PunctuationId::RBracket)) {
+                Some(Box::new(self.expression()?))
+            } else {
+                None
+            };
+            return Ok(IndexOrSlice::Slice(SliceExpr {
+                start: start.map(Box::new),
+                end: None,
+                step,
+            }));
+        }
+
         // Consume the first colon
         self.expect(&TokenKind::Punctuation(PunctuationId::Colon), "Expected ':' in slice")?;
 
